@@ -1,38 +1,100 @@
 from registry_common import COMMON_ASSUME
 
-ENTRY = dict(
-    title="Payload decoding conforms to the ecoNET wire layout for every message",
-    design_ref="DESIGN.md section 6 / C05",
-    technique="Lean 4 round-trip theorems decode(encode m ++ rest) = (valOf m, rest) for every structure and the whole sensor chain "
-              "(wire layout written once as encoders = the specification) + correspondence: Lean-encoded messages decoded by the real frames, plus a malformed stream",
-    prop_modules=["C05Sensors", "C05Params", "C05Device", "C05Short"],
-    uses_tables=True,
-    level_text=(
-        "Proof: for ALL well-formed abstract messages and ALL trailing bytes the decoder model run on the Lean-defined encoding returns exactly the encoded "
-        "values and the remainder: the 16-section sensor chain (`rt_sensorData`, every presence combination; per-section theorems incl. sentinels 0xFF/NaN, "
-        "fuel-level rebasing, module vendor suffix, per-thermostat contact/schedule mask shift, `sections_no_collision`), regulator data over all 17 type ids with the "
-        "bit cursor crossing byte boundaries (`rt_scalar`, `rt_bitRun`, `rt_regdata`, `rt_schema`, `rt_regdata_via_schema`), parameter blocks with arbitrary "
-        "start/count/holes (`hole_iff`, `rt_slot`, `rt_params_ecomax/mixer/thermostat`), schedules (`rt_schedules`, `bitmap_bits`), alerts with the 31-day-month "
-        "timestamp arithmetic (`rt_alerts`, `alert_timestamp`, `alert_date`), UID/product info (`rt_uid`), password (`rt_password`). Names, constants and tables are "
-        "regenerated from the source on every run and pinned by `decide` lemmas. Tie: abstract messages generated in Python, ENCODED BY THE LEAN DRIVER, decoded by the "
-        "real frames (with and without an owning device), compared with valOf; truncations / mutations / noise compared value-or-error; purity checked by repeated decodes."),
-    level_note="All structures have a round-trip theorem. Rests on correspondence: model <-> structures/*.py, purity, error classes of malformed payloads, formatted model name "
-               "(printable ASCII only), UID text (CRC-16/base-32: model definition + correspondence), UTF-8 validity = bytes.decode. Trusted: struct float conversion, inet_ntop text.",
-    clauses={
-        "every sensor section reads its own bytes / width / sentinel / count": "theorem",
-        "sensor chain for every presence combination": "theorem (rt_sensorData)",
-        "regulator data over all 17 type ids, bit arrays crossing byte boundaries": "theorem (rt_scalar, rt_bitRun, rt_regdata, rt_regdata_via_schema)",
-        "parameter blocks (ecoMAX, mixer, thermostat), hole sentinel": "theorem (rt_params_*, hole_iff)",
-        "schedules, alerts, UID, password": "theorem (rt_schedules, rt_alerts, rt_uid, rt_password)",
-        "names / constants / tables": "table (translator + decide lemmas)",
-        "decoding is pure and repeatable": "definitional in the model + correspondence (decode twice, fresh frame, payload bytes unchanged)",
-        "malformed payloads": "correspondence (value or error class)",
-        "truncated sensor-data payloads: exactly which strict prefixes are errors": "theorem (decode_total, short_payload_errors, short_payload_tail_ok) + correspondence (every truncation of sampled messages judged by the theorem's bound)",
-        "device level: sensors -> one event per name, mixer / thermostat sub-devices, thermostat count plumbed to the thermostat-parameters decoder": "theorem (thermostats_available_after, thermostat_count_plumbed, thermostat_count_zero) on the device model + correspondence (frame sequences into ONE real EcoMAX, device.data and sub-device data compared after every frame)",
-        "device level: schema response then regulator data, a later schema replaces an earlier one, an empty schema keeps it": "theorem (schema_then_data, later_schema_replaces, empty_schema_keeps) + correspondence",
-        "frame versions: same layout in sensor data and regulator data, last duplicate wins, unknown codes kept; the dict C15 consumes": "theorem (frame_versions_same_layout, frame_versions_last_wins, sensor_frame_versions, regdata_frame_versions); driver op `c05-versions` exports it as a C15 announcement event",
-        "thermostat parameters without an owning device": "documented exclusion (model and implementation both raise)",
-    },
-    timeout={"quick": 600, "thorough": 3000},
-    assumptions=COMMON_ASSUME,
-)
+ENTRY = {'title': 'Payload decoding conforms to the ecoNET wire layout for every message',
+ 'design_ref': 'DESIGN.md section 6 / C05',
+ 'technique': 'Lean 4 round-trip theorems decode(encode m ++ rest) = (valOf m, rest) for every structure and the whole sensor chain (wire layout '
+              'written once as encoders = the specification) + correspondence: Lean-encoded messages decoded by the real frames, plus a malformed '
+              'stream',
+ 'prop_modules': ['C05Sensors', 'C05Params', 'C05Device', 'C05Short', 'C05Uid', 'C05ShortParams'],
+ 'uses_tables': True,
+ 'level_text': 'Proof: for ALL well-formed abstract messages and ALL trailing bytes the decoder model run on the Lean-defined encoding returns '
+               'exactly the encoded values and the remainder: the 16-section sensor chain (`rt_sensorData`, every presence combination; per-section '
+               'theorems incl. sentinels 0xFF/NaN, fuel-level rebasing, module vendor suffix, per-thermostat contact/schedule mask shift, '
+               '`sections_no_collision`), regulator data over all 17 type ids with the bit cursor crossing byte boundaries (`rt_scalar`, '
+               '`rt_bitRun`, `rt_regdata`, `rt_schema`, `rt_regdata_via_schema`), parameter blocks with arbitrary start/count/holes (`hole_iff`, '
+               '`rt_slot`, `rt_params_ecomax/mixer/thermostat`), schedules (`rt_schedules`, `bitmap_bits`), alerts with the 31-day-month timestamp '
+               'arithmetic (`rt_alerts`, `alert_timestamp`, `alert_date`), UID/product info (`rt_uid`), password (`rt_password`). The UID text is '
+               'proved to be the base-32 expansion of uid ++ CRC-16 (`crc16_step_spec`, `crc16_step_table`, `crc16_fits`, `base5_digits`) and what '
+               'it determines is characterised exactly (`uidString_eq_iff_padded`, `uidString_injective_fixed_len`, `uid_collision`). Malformed '
+               'side: for EVERY byte string when each decoder raises and when it returns a value (`decode_total_*`), what every strict prefix of a '
+               'well-formed payload decodes to incl. the silently short cases of lenient slicing (`short_*`), and the converse of the round trips '
+               'for payloads whose counts fit (`canonical_*`). Device level (`Model/DeviceData.lean`): what EcoMAX.handle_frame leaves in '
+               'device.data and the sub-devices — `thermostat_count_plumbed` (sensor frame with T slots, then thermostat parameters laid out for T '
+               'decode with T), `schema_then_data`, `later_schema_replaces`, `frame_versions_same_layout`; truncated sensor payloads characterised '
+               'exactly (`decode_total`, `short_payload_errors`, `short_payload_tail_ok`). Names, constants and tables are regenerated from the '
+               'source on every run and pinned by `decide` lemmas. Tie: abstract messages generated in Python, ENCODED BY THE LEAN DRIVER, decoded '
+               'by the real frames (with and without an owning device), compared with valOf; truncations / mutations / noise compared '
+               'value-or-error; purity checked by repeated decodes.',
+ 'level_note': 'All structures have a round-trip theorem. Rests on correspondence: model <-> structures/*.py, purity, error classes of malformed '
+               'payloads, formatted model name (printable ASCII only), UTF-8 validity = bytes.decode. Trusted: struct float conversion, inet_ntop '
+               'text.',
+ 'clauses': {'every sensor section reads its own bytes / width / sentinel / count': 'theorem',
+             'sensor chain for every presence combination': 'theorem (rt_sensorData)',
+             'regulator data over all 17 type ids, bit arrays crossing byte boundaries': 'theorem (rt_scalar, rt_bitRun, rt_regdata, '
+                                                                                         'rt_regdata_via_schema)',
+             'parameter blocks (ecoMAX, mixer, thermostat), hole sentinel': 'theorem (rt_params_*, hole_iff)',
+             'schedules, alerts, UID, password': 'theorem (rt_schedules, rt_alerts, rt_uid, rt_password)',
+             'names / constants / tables': 'table (translator + decide lemmas)',
+             'decoding is pure and repeatable': 'definitional in the model + correspondence (decode twice, fresh frame, payload bytes unchanged)',
+             'truncated sensor-data payloads: exactly which strict prefixes are errors': 'theorem (decode_total, short_payload_errors, '
+                                                                                         'short_payload_tail_ok) + correspondence (every truncation '
+                                                                                         "of sampled messages judged by the theorem's bound)",
+             'device level: sensors -> one event per name, mixer / thermostat sub-devices, thermostat count plumbed to the thermostat-parameters decoder': 'theorem '
+                                                                                                                                                           '(thermostats_available_after, '
+                                                                                                                                                           'thermostat_count_plumbed, '
+                                                                                                                                                           'thermostat_count_zero) '
+                                                                                                                                                           'on '
+                                                                                                                                                           'the '
+                                                                                                                                                           'device '
+                                                                                                                                                           'model '
+                                                                                                                                                           '+ '
+                                                                                                                                                           'correspondence '
+                                                                                                                                                           '(frame '
+                                                                                                                                                           'sequences '
+                                                                                                                                                           'into '
+                                                                                                                                                           'ONE '
+                                                                                                                                                           'real '
+                                                                                                                                                           'EcoMAX, '
+                                                                                                                                                           'device.data '
+                                                                                                                                                           'and '
+                                                                                                                                                           'sub-device '
+                                                                                                                                                           'data '
+                                                                                                                                                           'compared '
+                                                                                                                                                           'after '
+                                                                                                                                                           'every '
+                                                                                                                                                           'frame)',
+             'device level: schema response then regulator data, a later schema replaces an earlier one, an empty schema keeps it': 'theorem '
+                                                                                                                                    '(schema_then_data, '
+                                                                                                                                    'later_schema_replaces, '
+                                                                                                                                    'empty_schema_keeps) '
+                                                                                                                                    '+ '
+                                                                                                                                    'correspondence',
+             'frame versions: same layout in sensor data and regulator data, last duplicate wins, unknown codes kept; the dict C15 consumes': 'theorem '
+                                                                                                                                              '(frame_versions_same_layout, '
+                                                                                                                                              'frame_versions_last_wins, '
+                                                                                                                                              'sensor_frame_versions, '
+                                                                                                                                              'regdata_frame_versions); '
+                                                                                                                                              'driver '
+                                                                                                                                              'op '
+                                                                                                                                              '`c05-versions` '
+                                                                                                                                              'exports '
+                                                                                                                                              'it as '
+                                                                                                                                              'a C15 '
+                                                                                                                                              'announcement '
+                                                                                                                                              'event',
+             'thermostat parameters without an owning device': 'documented exclusion (model and implementation both raise)',
+             'UID text = base-32 of uid ++ CRC-16(0xA001, 0xA3A3); what the text determines': 'theorem (crc16_step_spec, crc16_step_table, '
+                                                                                              'crc16_fits, crc16_residue, base5_digits, '
+                                                                                              'uidString_eq_iff_padded, '
+                                                                                              'uidString_injective_fixed_len, uid_collision) + table '
+                                                                                              '(BASE5_KEY, CRC, POLYNOMIAL via translator) + '
+                                                                                              'correspondence (decode_uid incl. the colliding '
+                                                                                              'inputs)',
+             'malformed payloads: when the model raises / returns a value, every strict prefix': 'theorem about the model (decode_total_*, short_*) '
+                                                                                                 '+ correspondence (model = implementation on every '
+                                                                                                 'prefix of sampled payloads, truncations, noise; '
+                                                                                                 'value or error class)',
+             'decode then encode (canonical payloads)': 'theorem (canonical_ecomax/mixer/thermostat/schedules/uid, decode_total_alerts); fails only '
+                                                        'for payloads shorter than their count fields say (short_*)'},
+ 'timeout': {'quick': 600, 'thorough': 3000},
+ 'assumptions': COMMON_ASSUME}
